@@ -43,7 +43,7 @@ def run(rec):
         for chem in chem_patterns(ns, nc, rec.tier):
             for eng in ("euler", "tauleap", "gillespie"):
                 items.append((netname, sd, chem, eng))
-    rec.parallel(_work, items)
+    rec.parallel(_work, items, item_budget_s=240 if rec.tier == "quick" else 900)
 
 
 def _work(rec, item):
